@@ -64,3 +64,157 @@ def nesting_limit(R, P, rule="RECUR"):
         okd = bool(desc) and len(lim) == 1 and all(lim[0].id in dom.get(e.blk, ()) and e.blk != lim[0].id for e in desc)
         R.check(okl and okd, rule, "cjson:%s:nesting-limit" % name, "%s in %s()" % (CJ, name), "depth >= limit is refused before any descent into parse_value",
                 "the nesting limit of %s is not tested (with >= against a constant) before the recursive descent: deeply nested input recurses until the stack is exhausted" % name)
+
+
+# ----------------------------------------------------------------------------------------------------------------------
+# room of the vendored printer: every byte written through the pointer ensure() returned lies inside the room asked for
+from sa.num import Num, Poly, Limit, entails
+from sa.awslib import AwsHooks, in_bounds
+from sa.bounds import access_sites, addr_size
+
+NESTED_PRINTERS = {"print_value": 1, "print_string_ptr": 1, "print_string": 1, "print_number": 1, "update_offset": 0, "print_array": 1, "print_object": 1}
+
+
+class PrintHooks(AwsHooks):
+    """ensure(p, n) yields NULL or a pointer to n + 1 writable bytes (ENSURE, verified on its body below); the nested printers
+    change offset / buffer / length of the print buffer but leave depth and format alone (depth-balanced, checked above);
+    the nesting depth of a tree being printed is below 2^32"""
+
+    def fresh_field(self, num, st, key, rec, f, atom):
+        if rec == "printbuffer" and f == "depth":
+            st.add(Poly.atom(atom) - 2 ** 32)
+            st.add(-Poly.atom(atom))
+            return
+        if rec == "printbuffer" and f in ("length", "offset"):
+            st.add(Poly.atom(atom) - 2 ** 62)
+            st.add(-Poly.atom(atom))
+            return
+        AwsHooks.fresh_field(self, num, st, key, rec, f, atom)
+
+    def _pb_keys(self, num, st, e, ai):
+        s2 = st.copy()
+        bv = num.val(num.fn.d(e["a"][ai]), s2) if ai < len(e.get("a", [])) else None
+        if bv is None:
+            return None
+        base = num.base_of(st, bv)
+        return [(base + f_, "printbuffer", f_) for f_ in ("offset", "buffer", "length")]
+
+    def call_modifies(self, num, st, e):
+        c = e.get("callee") or ""
+        if c in NESTED_PRINTERS:
+            return self._pb_keys(num, st, e, NESTED_PRINTERS[c])
+        if c == "ensure":
+            ks = self._pb_keys(num, st, e, 0)
+            return [k for k in ks if k[2] != "offset"] if ks else None
+        return None
+
+    def call(self, num, st, e, args):
+        c = e.get("callee") or ""
+        if c == "ensure" and num.fn.name != "ensure":
+            outs = []
+            s1 = st.copy()
+            p = num.fresh(s1, "room", None, (1, 2 ** 62))
+            if len(args) > 1 and args[1] is not None:
+                s1.extent[p] = args[1] + 1
+            ks = self._pb_keys(num, s1, e, 0) or []
+            for k, rec, f_ in ks:
+                if f_ != "offset":
+                    s1.env.pop(k, None)
+            s1.vals[e["id"]] = Poly.atom(p)
+            outs.append(s1)
+            s2 = st.copy()
+            s2.vals[e["id"]] = Poly.const(0)
+            outs.append(s2)
+            return outs
+        if c in NESTED_PRINTERS:
+            for k, rec, f_ in (self._pb_keys(num, st, e, NESTED_PRINTERS[c]) or []):
+                st.env.pop(k, None)
+            t = num.ty(e)
+            return Poly.atom(num.fresh(st, c, t)) if ("w" in t or t.get("ptr")) else None
+        return AwsHooks.call(self, num, st, e, args)
+
+
+def print_room(R, P, rule="PRINT-WRAP", names=("print_object", "print_array")):
+    n_sites = 0
+    for name in names:
+        f = P.fn(name)
+        if not R.require(f is not None, "%s not found in cJSON.c" % name):
+            continue
+        R.fn(f)
+        num = Num(f, P, PrintHooks(), max_paths=40000)
+        sites = [s for s in access_sites(f) if "output_pointer" in f.show(s[2])]
+        try:
+            sts = num.states_at({s[0] for s in sites})
+        except Limit as ex:
+            R.broken("NUM trace limit in %s: %s" % (name, ex))
+            continue
+        for eid, kind, nd in sites:
+            ok, det, cnt = True, "", 0
+            for st in sts.get(eid, []):
+                s2 = st.copy()
+                for (D, sz, mode) in addr_size(num, s2, kind, nd):
+                    cnt += 1
+                    r = in_bounds(s2, D, sz)
+                    if r[0] != "ok":
+                        ok, det = False, r[1]
+            if cnt:
+                n_sites += 1
+                R.check(ok, rule, "print-room:%s:line%d" % (name, nd.get("loc", [0])[0]), "%s:%d in %s()" % (CJ, nd.get("loc", [0])[0], name), "the byte written lies inside the room ensure() was asked for (%d states)" % cnt,
+                        "the printer writes through the pointer ensure() returned beyond the room it asked for: %s - for deep formatted output the serialiser writes past its heap block or aborts on a valid tree" % det)
+    R.require(n_sites >= 12, "only %d printer write sites analysed" % n_sites)
+    # ENSURE: the contract assumed above, from ensure()'s own body
+    f = P.fn("ensure")
+    if not R.require(f is not None, "ensure() not found in cJSON.c"):
+        return
+    R.fn(f)
+
+    class EH(PrintHooks):
+        def entry(self, num, st):
+            p = num.read({"k": "var", "n": f.params[0]["n"], "sc": "param", "t": f.params[0]["t"], "id": -1}, st)
+            n = num.read({"k": "var", "n": f.params[1]["n"], "sc": "param", "t": f.params[1]["t"], "id": -1}, st)
+            base = num.base_of(st, p)
+            buf = num.field(st, base + "buffer", "printbuffer", "buffer")
+            ln = num.field(st, base + "length", "printbuffer", "length")
+            off = num.field(st, base + "offset", "printbuffer", "offset")
+            if len(buf.t) == 1:
+                st.extent[list(buf.t)[0][0]] = ln
+            st.notes["ens0"] = (n, base)
+
+        def call(self, num, st, e, args):
+            if e.get("callee") is None:
+                via = RU.indirect_via(num.fn, e)
+                if via and via[1] in ("reallocate", "allocate"):
+                    outs = []
+                    s1 = st.copy()
+                    nb = num.fresh(s1, "newbuffer", None, (1, 2 ** 62))
+                    if args and args[-1] is not None:
+                        s1.extent[nb] = args[-1]
+                    s1.vals[e["id"]] = Poly.atom(nb)
+                    outs.append(s1)
+                    s2 = st.copy()
+                    s2.vals[e["id"]] = Poly.const(0)
+                    outs.append(s2)
+                    return outs
+                if via and via[1] == "deallocate":
+                    return None
+            return PrintHooks.call(self, num, st, e, args)
+    num = Num(f, P, EH(), max_paths=4000)
+    rets = [x for b in f.blocks.values() for x in b.elems if x["k"] == "ret"]
+    try:
+        sts = num.states_at({r["id"] for r in rets})
+    except Limit as ex:
+        R.broken(str(ex))
+        return
+    ok, det, cnt = True, "", 0
+    for r in rets:
+        for st in sts.get(r["id"], []):
+            rv = num.val(r["a"][0], st)
+            if rv is None or (rv.is_const() and rv.cval() == 0):
+                continue
+            n0, base = st.notes["ens0"]
+            cnt += 1
+            res = in_bounds(st.copy(), rv, n0 + 1)
+            if res[0] != "ok":
+                ok, det = False, "line %d: %s" % (r["loc"][0], res[1])
+    R.check(ok and cnt >= 2, rule, "print-room:ensure-contract", "%s in ensure()" % CJ, "a non-NULL result points at needed + 1 bytes inside the (possibly re-allocated) print buffer (%d states)" % cnt,
+            "ensure() can return a pointer with less room than requested: %s" % det)
